@@ -1,7 +1,7 @@
 from pulser.backend import EmulatorBackend, Results, BitStrings
 from emu_sv.sv_config import SVConfig
 from emu_sv.sv_backend_impl import SVBackendImpl
-from emu_base import PulserData, SequenceData
+from emu_base import PulserData, SequenceData, HamiltonianType
 
 
 class SVBackend(EmulatorBackend):
@@ -30,6 +30,12 @@ class SVBackend(EmulatorBackend):
         pulser_data = PulserData(
             sequence=self._sequence, config=self._config, dt=self._config.dt
         )
+        if pulser_data.hamiltonian_type == HamiltonianType.XY:
+            # only the ground-rydberg (ising) Hamiltonian is implemented here
+            raise NotImplementedError(
+                "emu-sv does not support the XY interaction of microwave channels. "
+                "Consider using the emu-mps backend."
+            )
         results = []
         for sequence_data in pulser_data.get_sequences():
             results.append(self._run_from_sequence_data(sequence_data, self._config))
